@@ -3,7 +3,7 @@ from .common import COMMON_ASSUME
 CFG = {
     "extra_props_modules": ["RpmVerif.Props.C02Bytes"],
     "props_module": "RpmVerif.Props.C02",
-    "required_theorems": ["RpmVerif.C02.verify_ok_sound", "RpmVerif.C02.verify_log_faithful", "RpmVerif.C02.verify_data_right",
+    "required_theorems": ["RpmVerif.C02.signature_tags_standard", "RpmVerif.C02.verify_ok_sound", "RpmVerif.C02.verify_log_faithful", "RpmVerif.C02.verify_data_right",
                           "RpmVerif.C02.verify_first_reject", "RpmVerif.C02.verify_total", "RpmVerif.C02.verify_no_sig_is_error",
                           "RpmVerif.C02.verify_digest_error_first", "RpmVerif.C02.tamper_rejected", "RpmVerif.C02.tamper_rejected_digest",
                           "RpmVerif.C02.tamper_rejected_verifier", "RpmVerif.C02.tamper_rejected_payload",
